@@ -80,11 +80,12 @@ class Sweep(metaclass=abc.ABCMeta):
 
     def __add__(self, other: Sweep) -> Sweep:
         sweeps: list[Sweep] = []
-        if isinstance(self, Zip):
+        # A ZipLongest is not spliced: its factors repeat their last value, those of a Zip do not.
+        if isinstance(self, Zip) and not isinstance(self, ZipLongest):
             sweeps.extend(self.sweeps)
         else:
             sweeps.append(self)
-        if isinstance(other, Zip):
+        if isinstance(other, Zip) and not isinstance(other, ZipLongest):
             sweeps.extend(other.sweeps)
         elif isinstance(other, Sweep):
             sweeps.append(other)
